@@ -4,7 +4,8 @@ package props
 
 const hookEnabled = false
 
-func setStepLimit(n int64)     {}
-func vmSteps() int64           { return 0 }
-func isBudgetPanic(r any) bool { return false }
-func abortRun()                {}
+func setStepLimit(n int64)       {}
+func vmSteps() int64             { return 0 }
+func isBudgetPanic(r any) bool   { return false }
+func abortRun()                  {}
+func vmProgress() (int64, int64) { return 0, 0 }
